@@ -117,7 +117,12 @@ class FunctionInteractionsUtils(object):
         for fi0 in fi.parsed_body:
             if isinstance(fi0, FunctionInteractions):
                 res += cls.all_store_paths(fi0).items()
-        return OrderedDict(res)
+        # A path may be found more than once: the function given to keep() is also seen as a plain reference
+        # to that function, analyzed without its arguments. The first occurrence is the kept call itself.
+        res_dict: "OrderedDict[DDSPath, PyHash]" = OrderedDict()
+        for (p, key) in res:
+            res_dict.setdefault(p, key)
+        return res_dict
 
     @classmethod
     def all_indirect_deps(cls, fis: FunctionInteractions) -> Set[DDSPath]:
